@@ -114,10 +114,13 @@ def selection_sites(eng):
                 continue  # e.g. swap_points' index bookkeeping (== tests)
             c = cmp_[0]
             a, b = ekey(c.left), ekey(c.comparators[0])
-            if isinstance(c.ops[0], (ast.Lt, ast.LtE)):
+            # the holder is the incumbent's value (objopt / objval[kopt]); the candidate is the other operand -- independent of the operator's direction
+            if "objopt" in b or "kopt" in b:
                 cand, holder = a, b
-            else:
+            elif "objopt" in a or "kopt" in a:
                 cand, holder = b, a
+            else:
+                continue
             sites.append(Site("move-" + m.qualname.split(".")[-1], m, ifn, ifn.test, holder, cand,
                               _fixed_flags(m, ifn.test, {holder, cand}), False, {"ORDER", "NAN_CAND"}))
     # ---- merge
